@@ -373,36 +373,119 @@ class _rewrite_captured_vars(ast.NodeTransformer):
 
 
 class _resolve_called_lambdas(ast.NodeTransformer):
-    "Resolve any `(lambda x: x + 1)(y)` calls into just `y + 1`."
+    """Resolve any `(lambda x: x + 1)(y)` calls into just `y + 1`.
+
+    The argument map holds, per name, either the argument expression to substitute or, for a
+    name bound by a nested lambda or comprehension inside the body, the (possibly new) name
+    it keeps there.
+    """
 
     def __init__(self):
-        self._arg_map_list = []
+        self._arg_map_list: List[Dict[str, Union[ast.AST, str]]] = []
+
+    def _bind_arguments(self, lambda_node: ast.Lambda, node: ast.Call) -> Optional[Dict[str, Any]]:
+        "Match the call's positional and keyword arguments to the lambda's parameters"
+        a = lambda_node.args
+        if a.vararg or a.kwarg or a.kwonlyargs or a.posonlyargs or a.defaults:
+            return None
+        names = [arg.arg for arg in a.args]
+        if len(node.args) > len(names):
+            return None
+        bound = dict(zip(names, node.args))
+        for kw in node.keywords:
+            if kw.arg is None or kw.arg not in names or kw.arg in bound:
+                return None
+            bound[kw.arg] = kw.value
+        if len(bound) != len(names):
+            return None
+        return bound
 
     def visit_Call(self, node: ast.Call) -> Any:
         # Check if the function being called is a lambda
         if isinstance(node.func, ast.Lambda):
             lambda_node = node.func
-
-            # Ensure the lambda has arguments and a body
-            if len(lambda_node.args.args) == len(node.args):
-                arg_map = {
-                    lambda_node.args.args[i].arg: self.visit(node.args[i])
-                    for i in range(len(lambda_node.args.args))
-                }
-                self._arg_map_list.append(arg_map)
-
-                result = self.generic_visit(lambda_node.body)
+            bound = self._bind_arguments(lambda_node, node)
+            if bound is not None:
+                arg_map = {name: self.visit(value) for name, value in bound.items()}
+                self._arg_map_list.append(arg_map)  # type: ignore
+                result = self.visit(lambda_node.body)
                 self._arg_map_list.pop()
                 return result
-        else:
+        return self.generic_visit(node)
+
+    def _local_names(self, names: List[str]) -> Dict[str, Union[ast.AST, str]]:
+        """Names bound inside the body hide an argument of the same name. If an argument that is
+        being substituted mentions such a name, the local name is changed so that it cannot
+        capture it."""
+        in_arguments = {
+            n.id
+            for arg_map in self._arg_map_list
+            for v in arg_map.values()
+            if isinstance(v, ast.AST)
+            for n in ast.walk(v)
+            if isinstance(n, ast.Name)
+        }
+        result: Dict[str, Union[ast.AST, str]] = {}
+        for name in names:
+            new_name, i = name, 0
+            while new_name in in_arguments:
+                i += 1
+                new_name = f"{name}_{i}"
+            result[name] = new_name
+        return result
+
+    def visit_Lambda(self, node: ast.Lambda) -> Any:
+        if len(self._arg_map_list) == 0:
             return self.generic_visit(node)
-        return node
+        local = self._local_names([a.arg for a in node.args.args])
+        self._arg_map_list.append(local)
+        new_body = self.visit(node.body)
+        self._arg_map_list.pop()
+        new_args = copy.copy(node.args)
+        new_args.args = [ast.arg(arg=cast(str, local[a.arg])) for a in node.args.args]
+        return ast.Lambda(args=new_args, body=new_body)
+
+    def _visit_comprehension(self, node: Any) -> Any:
+        if len(self._arg_map_list) == 0:
+            return self.generic_visit(node)
+        generators = []
+        for g in node.generators:
+            # The iterable does not see this generator's own target
+            new_iter = self.visit(g.iter)
+            names = [n.id for n in ast.walk(g.target) if isinstance(n, ast.Name)]
+            self._arg_map_list.append(self._local_names(names))
+            generators.append(
+                ast.comprehension(
+                    target=self.visit(g.target),
+                    iter=new_iter,
+                    ifs=[self.visit(i) for i in g.ifs],
+                    is_async=g.is_async,
+                )
+            )
+        new_node = copy.copy(node)
+        new_node.generators = generators
+        if isinstance(node, ast.DictComp):
+            new_node.key = self.visit(node.key)
+            new_node.value = self.visit(node.value)
+        else:
+            new_node.elt = self.visit(node.elt)
+        for _ in generators:
+            self._arg_map_list.pop()
+        return new_node
+
+    visit_ListComp = _visit_comprehension
+    visit_GeneratorExp = _visit_comprehension
+    visit_SetComp = _visit_comprehension
+    visit_DictComp = _visit_comprehension
 
     def visit_Name(self, node: ast.Name) -> Any:
         "Look through the arg map to see if it is a argument"
         for arg_map in reversed(self._arg_map_list):
             if node.id in arg_map:
-                return arg_map[node.id]
+                v = arg_map[node.id]
+                if isinstance(v, str):
+                    return node if v == node.id else ast.Name(id=v, ctx=node.ctx)
+                return copy.deepcopy(v)
         return node
 
 
